@@ -1484,3 +1484,19 @@ Proof.
   exists (fun _ => true), (mkHdr "" "" "" "" "!!bool" 0), "true".
   repeat split; vm_compute; reflexivity.
 Qed.
+
+(* ---------- anchors ---------- *)
+
+(* data: { b: &x hello, a: *x }  — sorting the fields puts the alias in front of its anchor *)
+Definition wit_alias : cnode :=
+  wm [("apiVersion", ws "v1"); ("kind", ws "ConfigMap");
+      ("data", wm [("b", CScalar (mkHdr "" "" "" "x" "" 0) "hello"); ("a", CAlias hd0 "x")])].
+
+Theorem fmt_anchor_order_refuted : forall nonstr, exists n n',
+  wf_keys n = true /\ anchors_ok n = true /\
+  filter_doc nonstr isort SNil n = Ok n' /\ anchors_ok n' = false.
+Proof.
+  intros nonstr. exists wit_alias. eexists.
+  split; [vm_compute; reflexivity|]. split; [vm_compute; reflexivity|].
+  split; [vm_compute; reflexivity|]. vm_compute. reflexivity.
+Qed.
